@@ -7,6 +7,13 @@
 open Model
 open Util
 
+let hreq_marker = 9999
+let is_hreq_feed (s : state) (t : int) =
+  let x = s.tasks (nat_of_int t) in
+  match x.t_pc, x.t_prog with
+  | PIdle, CFeed (InPush o) :: _ -> int_of_nat o = hreq_marker
+  | _ -> false
+
 let parse_call (tok : string) : call =
   match String.split_on_char ':' tok with
   | ["W"; c; sid; d] ->
@@ -20,6 +27,9 @@ let parse_call (tok : string) : call =
   | ["F"; "sa"; o; ok] -> CFeed (InSynAck (nat_of_int (int_of_string o), ok = "1"))
   | ["F"; "psh"; o] -> CFeed (InPush (nat_of_int (int_of_string o)))
   | ["F"; "fin"; o] -> CFeed (InFin (nat_of_int (int_of_string o)))
+  | ["F"; "hreq"] -> CFeed (InPush (nat_of_int hreq_marker))
+    (* a keep-alive request: for the feeding task a feed that touches no stream; the receive task's answer is the next
+       CWrite call of task 0's program (its write_frame(HeartResponse)), started by the driver right after the feed *)
   | ["F"; "alert"] -> CFeed InAlert | ["F"; "eof"] -> CFeed InEof | ["F"; "err"] -> CFeed InErr
   | ["F"; "err"; "eof"] -> CFeed InEof   (* recv_loop takes an UnexpectedEof read error (a TLS peer that hangs up without
                                             close_notify) as the end of the transport: the EOF path, not the error path *)
@@ -87,14 +97,28 @@ let drv_conc args =
   (* tasks that were granted the step that writes the burst on a stalled transport: in the implementation the
      task leaves its scheduling point and never reaches another one (the model's step is None from then on) *)
   let intr = ref [] in
+  let pending_req = ref 0 in
   let s = List.fold_left (fun s tok ->
       let t = int_of_string tok in
       let gone = is_pump s t && s.pump_done && (match (s.tasks (nat_of_int t)).t_pc with PIdle -> true | _ -> false) in
       let entering = (match (s.tasks (nat_of_int t)).t_pc with
           | PW4 _ -> s.stalled && not s.shut && not (List.mem t !intr) | _ -> false) in
       if entering then (intr := t :: !intr; s) else
-      match (if gone then None else step s (nat_of_int t)) with
-      | Some s' -> free_recv s'
+      let hreq = (not gone) && is_hreq_feed s t in
+      (* the receive task starts a call only when a request is dispatched, never by a grant of the scheduler *)
+      let idle0 = (t = 0) && (match (s.tasks O).t_pc with PIdle -> true | _ -> false) in
+      match (if gone || idle0 then None else step s (nat_of_int t)) with
+      | Some s' ->
+        if hreq then incr pending_req;
+        (* a dispatched HeartRequest makes the receive task enter write_frame: task 0 begins its next call as soon as
+           it is back in its loop (requests that arrive meanwhile wait in the transport) *)
+        let s' = ref (free_recv s') in
+        while !pending_req > 0 && (match (!s'.tasks O).t_pc with PIdle -> true | _ -> false)
+              && (match (!s'.tasks O).t_prog with [] -> false | _ -> true) && !s'.ralive do
+          decr pending_req;
+          (match step !s' O with Some s'' -> s' := free_recv s'' | None -> ())
+        done;
+        !s'
       | None -> Buffer.add_string b (Printf.sprintf "skip%d " t); s) s0 sched in
   Buffer.add_string b "W ";
   List.iter (fun (idx, items) ->
@@ -105,7 +129,7 @@ let drv_conc args =
   for t = 0 to ntasks - 1 do
     let x = s.tasks (nat_of_int t) in
     Buffer.add_string b (Printf.sprintf " t%d:%s:%s" t (if t = 0 && mode = "start" then "-" else pc_str !intr s t x)
-                           (if is_pump s t then "-" else
+                           (if is_pump s t || t = 0 then "-" else
                               match x.t_res with [] -> "-" | l -> String.concat "," (List.map res_str l)))
   done;
   Buffer.contents b
